@@ -66,9 +66,7 @@ def handle (op : String) (j : Json) : Except String Json := do
         if Gen.C12.iterLookahead then M.lookIter (IterSt.init ord inc ig gs) .fresh else M.iter (IterSt.init ord inc ig gs)
       let n := inc.length
       let mIter := pullAll M.pull fuel (mk g0)
-      let mMask := (zipAll fuel [blanks n, mk g0, blanks n]).map (fun rows =>
-        let col := rows.map (fun r => r.getD 1 [])
-        col ++ List.replicate (n - col.length) [])
+      let mMask := graphColumn fuel n (mk g0)
       let sp := specSync inc ig g0
       pure (Json.arr #[optJ outJ mIter, optJ outJ mMask], Json.arr #[optJ outJ sp, optJ outJ sp]))
     pure (reply (Json.mkObj [("res", Json.arr (res.map (·.1)).toArray)])
@@ -83,9 +81,7 @@ def handle (op : String) (j : Json) : Except String Json := do
   | "genome_mask" | "track" =>
     -- the computation graph pulls the chromosome-name stream first, then the data stream, then the sizes
     let n := included.length
-    let m := (zipAll fuel [blanks n, mkIter g0, blanks n]).map (fun rows =>
-      let col := rows.map (fun r => r.getD 1 [])
-      col ++ List.replicate (n - col.length) [])
+    let m := graphColumn fuel n (mkIter g0)
     pure (reply (optJ outJ m) (some (optJ outJ (specSync included ignored g0))))
   | "ms" =>
     pure (reply (optJ outJ (pullAll M.pull fuel (mkSync g0))) (some (optJ outJ (specSync all [] g0))))
